@@ -223,6 +223,8 @@ type Store struct {
 	// front of the content (a storage layer that frames or seals leaf blocks; the link system's EncoderChooser is the
 	// caller's to set): the encoded length of a leaf is then more than its content
 	RawEnvelope int
+	// RawEnvelopeRead: the link systems also get the matching raw DECODER (reads go through the framing codec too)
+	RawEnvelopeRead bool
 	// PBEnvelope > 0: link systems made for this store write dag-pb blocks behind that many bytes of envelope and strip
 	// them again when decoding (a custom EncoderChooser / DecoderChooser pair for the dag-pb codec: framed, encrypted or
 	// compressed block formats are set up like this)
@@ -482,6 +484,53 @@ func (s *Store) LinkSystemVariant(variant int) *ipld.LinkSystem {
 					return err
 				}
 				return enc(n, w)
+			}, nil
+		}
+	}
+	if s.RawEnvelope != 0 && s.RawEnvelopeRead {
+		// ... and the matching raw decoder, for checks that READ through the framing codec
+		innerD, fixed := ls.DecoderChooser, s.RawEnvelope
+		ls.DecoderChooser = func(l datamodel.Link) (codec.Decoder, error) {
+			dec, err := innerD(l)
+			if err != nil {
+				return nil, err
+			}
+			if cl, ok := l.(cidlink.Link); !ok || cl.Cid.Prefix().Codec != codecRaw {
+				return dec, nil
+			}
+			return func(na datamodel.NodeAssembler, r io.Reader) error {
+				b, err := io.ReadAll(r)
+				if err != nil {
+					return err
+				}
+				switch {
+				case fixed == RawEnvelopeStuffed:
+					out := make([]byte, 0, len(b))
+					for i := 0; i < len(b); i++ {
+						if b[i] == 0x7D {
+							if i+1 >= len(b) {
+								return fmt.Errorf("framed raw block: dangling escape")
+							}
+							i++
+							out = append(out, b[i]^0x80)
+						} else {
+							out = append(out, b[i])
+						}
+					}
+					b = out
+				case fixed == RawEnvelopeUvarint:
+					n, k := binary.Uvarint(b)
+					if k <= 0 || int(n) != len(b)-k {
+						return fmt.Errorf("framed raw block: bad length prefix")
+					}
+					b = b[k:]
+				default:
+					if len(b) < fixed {
+						return fmt.Errorf("framed raw block: short")
+					}
+					b = b[fixed:]
+				}
+				return dec(na, bytes.NewReader(b))
 			}, nil
 		}
 	}
